@@ -730,7 +730,16 @@ func (w *c16World) revoke(ci int, via string) bool {
 	}
 	if e, have := w.ledger[c.Serial]; have {
 		w.r.Count("rerevoke_success", 1)
-		if (rt != e.RevTime || (via != "issuer" && e.Via != "issuer" && rfc != "" && e.RevRFC != "" && rfc != e.RevRFC)) && !c.Expired {
+		if via == "issuer" || e.Via == "issuer" {
+			// issuer/<ref>/revoke is outside the property's wording (see check): observation only
+			if rt != e.RevTime {
+				w.r.Count("outside_wording_observations", 1)
+				w.r.Count("outside_wording:C16-rerevoke-changed-revocation-time", 1)
+				if c16NoteOnce(w.r.Name + "|C16-rerevoke-changed-revocation-time") {
+					w.r.Note("outside the property's wording (issuer/<ref>/revoke), case %s: re-revoking %s reported revocation time %d, the first success reported %d", w.caseID, c.Serial, rt, e.RevTime)
+				}
+			}
+		} else if (rt != e.RevTime || (rfc != "" && e.RevRFC != "" && rfc != e.RevRFC)) && !c.Expired {
 			w.violate("C16-rerevoke-changed-revocation-time", fmt.Sprintf("re-revoking %s via %s reported revocation time %d (%s), the first success reported %d (%s)", c.Serial, via, rt, rfc, e.RevTime, e.RevRFC), nil)
 		}
 		return true
@@ -1156,11 +1165,12 @@ func (w *c16World) check(at string) {
 		if !w.cfg.OcspDisable {
 			o := w.ocspStatus(c)
 			if is.ID != "" {
-				if o.status == "unknown" && is.StaleAssoc {
+				noAnswer := o.status != "revoked" && o.status != "good" // unknown, or unauthorized when there is no default issuer to sign "unknown"
+				if noAnswer && is.StaleAssoc {
 					// the issuer was deleted and imported again while CRL building is disabled: nothing has
 					// re-associated the revocation record with the new issuer id, and OCSP only looks at the old id
-					ev(e, "C16-ocsp-unknown-after-issuer-reimport-while-crl-disabled", fmt.Sprintf("[%s] OCSP for %s answers unknown although the certificate is revoked and its issuer %s is present again (re-imported while config/crl disable=true)", at, serial, is.Name), nil)
-				} else if o.status == "unknown" && is.EverRemoved && c.IsIssuer >= 0 && w.iss[c.IsIssuer].ID != "" {
+					ev(e, "C16-ocsp-unknown-after-issuer-reimport-while-crl-disabled", fmt.Sprintf("[%s] OCSP for %s answers %q although the certificate is revoked and its issuer %s is present again (re-imported while config/crl disable=true)", at, serial, o.status, is.Name), nil)
+				} else if noAnswer && is.EverRemoved && c.IsIssuer >= 0 && w.iss[c.IsIssuer].ID != "" {
 					// same root cause as the CRL symptom of this class: the CRL builder skips the revocation
 					// record of a certificate that is itself an issuer, so the record is never re-associated
 					// with its (re-imported) issuer either, and OCSP keeps looking at the deleted issuer id
